@@ -46,7 +46,21 @@ func allClasses() map[string]bool {
 }
 
 // VerifyFunction generates the obligations of fn under its contract.
-func VerifyFunction(L *Loaded, cs *ContractSet, fn *ssa.Function, opts VerifyOpts, known []KnownFinding) *FuncResult {
+// VerifyFunction never lets a construct outside the engine's subset take the
+// whole check down: a panic while generating the conditions of one function
+// makes that function "not decided" (reported like a stale contract), and the
+// other functions are still checked.
+func VerifyFunction(L *Loaded, cs *ContractSet, fn *ssa.Function, opts VerifyOpts, known []KnownFinding) (res *FuncResult) {
+	defer func() {
+		if r := recover(); r != nil {
+			key := pkgShort(FuncPkgPath(fn)) + "." + FuncKey(fn)
+			res = &FuncResult{Key: key, Notes: map[string]int{}, SpecErrors: []string{fmt.Sprintf("engine limitation: condition generation stopped (%v); the function is not decided", r)}}
+		}
+	}()
+	return verifyFunction(L, cs, fn, opts, known)
+}
+
+func verifyFunction(L *Loaded, cs *ContractSet, fn *ssa.Function, opts VerifyOpts, known []KnownFinding) *FuncResult {
 	ctr := cs.Funcs[FuncPkgPath(fn)+"."+FuncKey(fn)]
 	strMode := "seq"
 	byteBV := false
